@@ -128,6 +128,7 @@ func main() {
 		list     = flag.Bool("list", false, "list passes")
 		obsFile  = flag.String("obs", "", "run the (input, cfg) of a violation file once and print the hash of the observation")
 		verbose  = flag.Bool("v", false, "verbose")
+		anyViol  = flag.Bool("anyviol", false, "replay: exit 1 if the oracle reports any violation that is not a known finding")
 		bscale   = flag.Float64("bscale", 1, "scale factor for per-pass budgets (confirmation re-runs)")
 	)
 	flag.Parse()
@@ -168,7 +169,16 @@ func main() {
 	}
 	if *replay != "" {
 		startWatchdog(x, time.Duration(*budget*float64(time.Second)), uint64(*heapMB)<<20)
-		os.Exit(doReplay(x, passes, *replay))
+		rc := doReplay(x, passes, *replay)
+		if *anyViol {
+			rc = 0
+			for _, r := range x.replayed {
+				if r.Known == "" {
+					rc = 1
+				}
+			}
+		}
+		os.Exit(rc)
 	}
 	if *locate != "" {
 		doLocate(x, passes, *locate)
